@@ -69,13 +69,19 @@ func newC14Env() *c14env {
 // signBytes returns what an account signs for a tx carrying exactly msg, or an error/panic
 // description when the mode cannot sign this message at all.
 func (e *c14env) signBytes(txc client.TxConfig, mode signing.SignMode, msg sdk.Msg) (bz []byte, err error) {
+	return e.signBytesN(txc, mode, []sdk.Msg{msg})
+}
+
+// signBytesN: what an account signs for a tx carrying the given message list.
+func (e *c14env) signBytesN(txc client.TxConfig, mode signing.SignMode, msgs []sdk.Msg) (bz []byte, err error) {
+	msg := msgs[0]
 	defer func() {
 		if r := recover(); r != nil {
 			err = fmt.Errorf("mode unusable: %v", r)
 		}
 	}()
 	b := txc.NewTxBuilder()
-	if err := b.SetMsgs(msg); err != nil {
+	if err := b.SetMsgs(msgs...); err != nil {
 		return nil, err
 	}
 	b.SetGasLimit(200000)
@@ -415,6 +421,46 @@ func minimalMsg(ti int) sdk.Msg {
 	}
 }
 
+// checkLists: two transactions that differ in one message of their (multi-message) lists
+// never share sign bytes, and sign bytes handed out earlier are not changed by later calls.
+func (e *c14env) checkLists(a, b, c sdk.Msg, st *pureStats) (string, *c14pair) {
+	if sameMessage(a, b) || safeValidate(a) != nil || safeValidate(b) != nil || safeValidate(c) != nil {
+		return "", nil
+	}
+	for _, md := range c14Modes {
+		for _, order := range []int{0, 1} {
+			la, lb := []sdk.Msg{a, c}, []sdk.Msg{b, c}
+			if order == 1 {
+				la, lb = []sdk.Msg{c, a}, []sdk.Msg{c, b}
+			}
+			sa, erra := e.signBytesN(e.txc, md.mode, la)
+			sb, errb := e.signBytesN(e.txc, md.mode, lb)
+			if erra != nil || errb != nil {
+				continue
+			}
+			if bytes.Equal(sa, sb) {
+				if k := knownCollision(md.name, a, b); k != "" {
+					st.label("excluded: "+k, 1)
+					continue
+				}
+				return fmt.Sprintf("mode %s: two 2-message transactions that differ in one message (%s vs %s, next to a %s) share their sign bytes", md.name, sdk.MsgTypeURL(a), sdk.MsgTypeURL(b), sdk.MsgTypeURL(c)), &c14pair{pairJSON(a), pairJSON(b), md.name}
+			}
+			st.label("2-message tx pair checked ("+md.name+")", 1)
+		}
+	}
+	// bytes returned by a message's own GetSignBytes stay what they were
+	type legacy interface{ GetSignBytes() []byte }
+	if la, ok := a.(legacy); ok {
+		if lc, ok := c.(legacy); ok {
+			var x, keep []byte
+			if callNoPanic(func() { x = la.GetSignBytes(); keep = append([]byte{}, x...); _ = lc.GetSignBytes() }) == "" && !bytes.Equal(x, keep) {
+				return fmt.Sprintf("the sign bytes returned for a %s changed after sign bytes of a %s were computed", sdk.MsgTypeURL(a), sdk.MsgTypeURL(c)), &c14pair{pairJSON(a), pairJSON(c), "retained"}
+			}
+		}
+	}
+	return "", nil
+}
+
 // TestC14: generated near-collision pairs.
 func TestC14(t *testing.T) {
 	e := newC14Env()
@@ -425,6 +471,14 @@ func TestC14(t *testing.T) {
 		a := genValidMsg(rt, ti)
 		b, op := mutateMsg(rt, a, ti)
 		if msg, p := e.checkPair(a, b, st); msg != "" {
+			c14Fail(rt, msg, p)
+		}
+		// the same pair inside two-message transactions, next to a third message
+		cmsg := genValidMsg(rt, rapid.IntRange(0, len(msgFactories)-1).Draw(rt, "third-type"))
+		if rapid.Bool().Draw(rt, "third-same-type") {
+			cmsg = genValidMsg(rt, ti)
+		}
+		if msg, p := e.checkLists(a, b, cmsg, st); msg != "" {
 			c14Fail(rt, msg, p)
 		}
 		nt := !sameMessage(a, b) && safeValidate(a) == nil && safeValidate(b) == nil
